@@ -42,6 +42,7 @@ type Obligation struct {
 	ConcLimit int                       `json:"conc_limit"`
 	StepLimit int64                     `json:"step_limit"`
 	QueryMs   map[string]int            `json:"query_ms"`
+	Solver    string                    `json:"solver"`
 	NoNative  bool                      `json:"no_native"` // schedule-dependent: authoritative replay is the engine's
 }
 
@@ -346,7 +347,7 @@ func cmdCheck(args []string) int {
 				ka[id] = true
 			}
 			cfg := sym.Config{Harness: fn, Params: r.params, Workers: *workers, UnwindCap: ob.Unwind, Scheduler: ob.Sched,
-				MapOrderNondet: ob.MapOrder, KnownActive: ka, ConcLimit: ob.ConcLimit, StepLimit: ob.StepLimit}
+				MapOrderNondet: ob.MapOrder, KnownActive: ka, ConcLimit: ob.ConcLimit, StepLimit: ob.StepLimit, SolverName: ob.Solver}
 			if mp := ob.MaxPaths[*tier]; mp > 0 {
 				cfg.MaxPaths = mp
 			}
@@ -480,7 +481,10 @@ func cmdCheck(args []string) int {
 			wg.Wait()
 			// solver diff (thorough): re-run worker 0's query log through the other solvers
 			if *tier == "thorough" && cfg.SmtLog != "" {
-				for _, other := range []string{"z3-new", "cvc5"} {
+				for _, other := range []string{"z3", "z3-new", "cvc5"} {
+					if other == ob.Solver || (ob.Solver == "" && other == "z3") {
+						continue
+					}
 					if d := solverDiff(cfg.SmtLog, other, 600); d != "" {
 						machinery = append(machinery, ob.ID+": solver diff vs "+other+": "+d)
 					}
@@ -527,8 +531,11 @@ func cmdCheck(args []string) int {
 		for _, s := range r.unconf {
 			machinery = append(machinery, r.ob.ID+": ENGINE-MISMATCH "+s)
 		}
-		if r.ex.Stats.Unknown > 0 || r.ex.Stats.Errors > 0 {
-			machinery = append(machinery, fmt.Sprintf("%s: %d solver answers unknown/timeout, %d error lines", r.ob.ID, r.ex.Stats.Unknown, r.ex.Stats.Errors))
+		// unknown answers to *pruning* queries keep the branch (over-approximation) and are
+		// harmless; an unknown answer to an assertion query ends its path as outcome "solver",
+		// which is already listed in Inconcl. Error lines are never acceptable.
+		if r.ex.Stats.Errors > 0 {
+			machinery = append(machinery, fmt.Sprintf("%s: %d (error ...) lines from the solver", r.ob.ID, r.ex.Stats.Errors))
 		}
 	}
 	for id, what := range knownWhat {
@@ -616,7 +623,7 @@ func solverDiff(log, solver string, maxQueries int) string {
 			continue
 		}
 		if want[k] != got[k] {
-			return fmt.Sprintf("query %d: z3 %s, %s %s", k, want[k], solver, got[k])
+			return fmt.Sprintf("query %d: primary %s, %s %s", k, want[k], solver, got[k])
 		}
 	}
 	return ""
@@ -681,6 +688,7 @@ func writeEvidence(root, property, tier string, seed int64, pc PropertyChecks, r
 			"id": r.ob.ID, "harness": r.ob.Harness, "desc": r.ob.Desc, "params": r.params, "paths": ex.Paths, "outcomes": ex.Outcomes,
 			"assert_sites_reached": ex.Reached, "queries": ex.Stats.Queries, "solver_time_s": ex.Stats.Time.Seconds(), "wall_s": r.wall.Seconds(),
 			"violations_confirmed": len(r.confirmed), "traces_validated": r.validated, "held": ok && unknownViol == 0,
+			"pruning_queries_unknown_kept": ex.KeptUnknown,
 		})
 	}
 	var fl []string
